@@ -49,6 +49,7 @@ struct Config {
   int level = 0, mode = 0;
   double e1 = -1, e2 = -1; // window (MeV); a negative bound is absent (one-sided window: the other side defaults to 0 / 4.3)
   std::string pre;         // key of a predecessor configuration initialised first on the same objects (dx)
+  std::string hist;        // raw text "cat name forced [START forced]" of a history shot on another working set before every port shot (dx)
   bool dbd() const { return cat == "dbd"; }
   bool window() const { return e1 >= 0 || e2 >= 0; }
   double lo() const { return e1 >= 0 ? e1 : 0.0; }
@@ -61,6 +62,16 @@ struct Config {
       else snprintf(b, sizeof b, "dbd:%s:l%d:m%d", name.c_str(), level, mode);
     } else snprintf(b, sizeof b, "bkg:%s", name.c_str());
     if (!pre.empty()) return std::string(b) + ":after:" + pre;
+    if (!hist.empty()) {
+      unsigned h = 2166136261u;
+      for (char ch : hist) h = (h ^ (unsigned char)ch) * 16777619u;
+      char hb[16];
+      snprintf(hb, sizeof hb, "%08x", h);
+      std::istringstream is(hist);
+      std::string hc, hn;
+      is >> hc >> hn;
+      return std::string(b) + ":hist:" + hn + ":" + hb;
+    }
     return b;
   }
 };
